@@ -194,6 +194,7 @@ var (
 	errParseTCPType                  = errors.New("failed to parse TCP type")
 	errUDPMuxDisabled                = errors.New("UDPMux is not enabled")
 	errUnknownRole                   = errors.New("unknown role")
+	errAgentFailed                   = errors.New("the agent has failed and takes no candidates until it is restarted")
 	errWrite                         = errors.New("failed to write")
 	errStreamingPacketTooLarge       = errors.New("packet too large for 16-bit length framing")
 	errWriteSTUNMessage              = errors.New("failed to send STUN message")
